@@ -11,6 +11,7 @@ func init() { register("C17", propC17) }
 const wgslNamesClause = "frontend keyword tables (E18): every entry of the lowerer's map[string]ir.<Enum> literals (builtin values, address spaces, texel formats, math builtins) maps a WGSL word to the IR constant named by the same word (case, underscores and the enum prefix aside)"
 
 var literalRawParseExceptions = map[string]string{
+	"wgsl/internal/lower.Lowerer.tryConstantArrayIndex:radix:Atoi": "fast path of an optimisation: when Atoi fails on a hexadecimal index the function declines (ok=false) and the caller lowers the index expression through the general path",
 	"wgsl/internal/lower.Lowerer.evalConstU32Expr:strconv.ParseUint": "fallback reached only after the constant-expression evaluator (which parses suffixed and hexadecimal literals) has declined the expression",
 	"wgsl/internal/lower.Lowerer.evalConstU32Expr:strconv.ParseInt":  "fallback reached only after the constant-expression evaluator has declined the expression",
 	"wgsl/internal/lower.Lowerer.tryConstantArrayIndex:strconv.Atoi":  "fast path of an optimisation: when the parse fails the function declines (ok=false) and the caller lowers the index expression through the general path, which handles suffixed and hexadecimal literals",
